@@ -545,3 +545,17 @@ class Real(PackedOps):
         self.pool[kv['r']] = HealSparseMap.read(self.files[kv.get('f', 'f')], degrade_nside=2 ** int(kv['ord']),
                                                 reduction=kv.get('red', 'mean'), **kw)
         return 'ok'
+
+    def op_cat(self, pos, kv):
+        names = split_list(kv['files'])
+        for n in names:
+            if n not in self.files:
+                raise NoMap(n)
+        out = os.path.join(self.tmpdir(), kv.get('f', 'f') + '.cat.fits')
+        kw = {}
+        if 'covord' in kv:
+            kw['nside_coverage_out'] = 2 ** int(kv['covord'])
+        healsparse.cat_healsparse_files([self.files[n] for n in names], out, clobber=True, in_memory=True,
+                                        check_overlap=(kv.get('check') == '1'), or_overlap=(kv.get('or') == '1'), **kw)
+        self.files[kv.get('f', 'f')] = out
+        return 'ok'
